@@ -192,12 +192,49 @@ let c11 (w : string list) : string =
     show_outcome_matrix (times16_checked (nat_of_int k) (nat_of_int c) a b)
   | _ -> failwith "c11: bad command"
 
+(* ---- C07 ---- *)
+let rec z_of_int (i : int) : z =
+  if i = 0 then Z0 else if i > 0 then Zpos (pos_of_int i) else Zneg (pos_of_int (-i))
+let ckind_of = function "cauchy" -> Cauchy | _ -> PAR2Vandermonde
+let rec words_of_bytes (l : n list) : n list =
+  match l with
+  | lo :: hi :: r -> n_of_int (int_of_n lo + 256 * int_of_n hi) :: words_of_bytes r
+  | _ -> []
+let digest_word_shards (s : n list list) : int =
+  List.fold_left (fun h sh ->
+    let h = List.fold_left (fun h w -> let w = int_of_n w in dg_step (dg_step h (w land 255)) (w lsr 8)) h sh in
+    dg_step h 256) 0 s
+let mask_of (s : string) : bool list = List.init (String.length s) (fun i -> s.[i] = '1')
+
+let c07 (w : string list) : string =
+  match w with
+  | ["new"; kind; d; p; g] ->
+    (match new_coder (ckind_of kind) (z_of_int (int_of_string d)) (z_of_int (int_of_string p)) (z_of_int (int_of_string g)) with
+     | Ok _ -> "ok" | Err _ -> "err" | Panic _ -> "panic")
+  | ["rt"; kind; d; p; g; words; seed; kd; kp] ->
+    let d = int_of_string d and p = int_of_string p and g = int_of_string g in
+    let words = int_of_string words and seed = int_of_string seed in
+    (match new_coder (ckind_of kind) (z_of_int d) (z_of_int p) (z_of_int g) with
+     | Ok c ->
+       let data = List.init d (fun i -> words_of_bytes (gen_bytes "rand" (seed + i) (2 * words))) in
+       let parity = gen_parity c data in
+       let pd = digest_word_shards parity in
+       (match reconstruct c (erase (mask_of kd) data) (erase (mask_of kp) parity) with
+        | Ok r -> Printf.sprintf "ok %d %d %s" pd (digest_word_shards r) (if r = data then "exact" else "WRONG")
+        | Err ENotEnoughParity -> Printf.sprintf "err notenough %d" pd
+        | Err _ -> Printf.sprintf "err other %d" pd
+        | Panic _ -> "panic")
+     | Err _ -> "err new"
+     | Panic _ -> "panic")
+  | _ -> failwith "c07: bad command"
+
 let dispatch (line : string) : string =
   match String.split_on_char ' ' (String.trim line) with
   | "c08" :: w -> c08 w
   | "c09" :: w -> c09 w
   | "c09mm" :: w -> c09mm w
   | "c11" :: w -> c11 w
+  | "c07" :: w -> c07 w
   | _ -> failwith ("bad line: " ^ line)
 
 let () =
